@@ -50,6 +50,9 @@ EXEMPT = {
 }
 
 
+ENTRY_ONLY_EXEMPT = {"ops::Rank::rank_zero|Overflow(Sub)|"}
+
+
 def entry_table(F):
     entries = {}
 
@@ -113,6 +116,14 @@ def check_config(ctx, F, tag):
                    nontrivial=fn in entries)
     for key, a in sorted(an.alarms.items()):
         ex = [p for p in EXEMPT if key.startswith(p)]
+        if ex and ex[0] in ENTRY_ONLY_EXEMPT:
+            # the exemption covers the function's own documented domain; an unclamped value arriving from another function is not covered
+            callers = sorted({o[0] for (f_, i_), lst in an.all_origins.items() if f_ == a["fn"] for o in lst})
+            if callers:
+                ctx.ob("C09.R1.raw-value-bounded", key + tag, a["where"], False, "guard-dominance",
+                       "%s is defined for arguments up to len (%s); it is reached with an unclamped caller-supplied value from %s, so the result is "
+                       "index - count_ones instead of the documented answer at len" % (a["fn"], EXEMPT[ex[0]][:60], callers))
+                continue
         if ex:
             ctx.exempt("C09.R1.raw-value-bounded", key, a["where"], EXEMPT[ex[0]])
             ctx.ob("C09.R1.raw-value-bounded", key + tag, a["where"], True, "reviewed-exemption", EXEMPT[ex[0]] + " [reached via %s]" % a["chain"])
